@@ -120,6 +120,11 @@ def handle : DrvHandler := fun op args =>
       some (match keysFor hs v1 pfx key body with
         | .ok ks => ok (.arr (ks.map Json.str).toArray)
         | .error e => err (errStr e))
+  | "C04.marker", [pfx, b, pa] => do
+      let pfx ← jStr? pfx
+      match ← toJ b, ← toJ pa with
+      | .obj bk, .obj pk => some (ok (ofJ (.obj (storeMarker pfx bk pk))))
+      | _, _ => none
   | "C04.consts", [] =>
       some (ok (Json.mkObj [("markers", .arr (knownMarkers.map Json.str).toArray),
                             ("prefixes", .arr (knownPrefixes.map Json.str).toArray),
